@@ -229,3 +229,18 @@ def sample_snv_alleles(array, dtype=np.int8):
     for i in range(n):
         alleles[i] = random_choice(dists[i])
     return alleles.reshape(shape)
+
+
+def structural_change(genotype, haplotype_indices, interval=None):
+    """Mutate genotype by re-arranging haplotypes within a given interval."""
+    ploidy, n_base = genotype.shape
+    cache = np.empty(ploidy, dtype=np.int8)
+    if interval is None:
+        r = range(n_base)
+    else:
+        r = range(interval[0], interval[1])
+    for j in r:
+        for h in range(ploidy):
+            cache[h] = genotype[h, j]
+        for h in range(ploidy):
+            genotype[h, j] = cache[haplotype_indices[h]]
